@@ -1036,6 +1036,29 @@ impl<'a> Oracle<'a> {
         for (i, a) in order.iter().enumerate() { pi[*a] = i }
         let mut inv = vec![0usize; g.len()];
         for a in 0..g.len() { inv[pi[a]] = a }
+        // directional bonds: where the re-read graph has the same bonds under the traversal-order bijection, a bond that is
+        // `/` or `\` on either side must have kept its kind as seen from each of its two atoms
+        let topo_same = (0..g.len()).all(|a| {
+            let mut b1: Vec<usize> = g[a].bonds.iter().map(|b| pi[b.tid]).collect();
+            let mut b2: Vec<usize> = rt.g2[pi[a]].bonds.iter().map(|b| b.tid).collect();
+            b1.sort(); b2.sort();
+            b1 == b2
+        });
+        if topo_same {
+            for a in 0..g.len() {
+                for b in g[a].bonds.iter() {
+                    let k1 = bond_s(t, &b.kind);
+                    if let Some(b2) = rt.g2[pi[a]].bonds.iter().find(|c| c.tid == pi[b.tid]) {
+                        let k2 = bond_s(t, &b2.kind);
+                        let dir = |k: &str| k == "6" || k == "7";
+                        if (dir(&k1) || dir(&k2)) && k1 != k2 {
+                            return fail(format!("{}: written as {:?}; the bond from atom {} to atom {} has kind #{} seen from atom {}, re-read as #{} (directional bonds must keep their direction relative to the two atoms)",
+                                what, rt.text, a, b.tid, k1, a, k2))
+                        }
+                    }
+                }
+            }
+        }
         if self.iso_under(&g, &rt.g2, &pi).is_err() { return "SKIP".to_string() } // not the traversal-order bijection: C01 / C12 decide
         const H: usize = usize::MAX;
         for a in 0..g.len() {
